@@ -53,7 +53,7 @@ def plan(tier, seed):
 def gen_case(rng, ctx):
     gen.OUTLIER["n_only_up_to"] = 7      # the exact oracle limits the number of elements; rankings are not limited
     thorough = ctx.tier == "thorough"
-    kind = rng.choice(["D8", "D8", "D8", "identical", "D3", "D4", "D9", "D2", "D11", "big"])
+    kind = rng.choice(["D8", "D8", "D8", "identical", "D3", "D4", "D9", "D2", "D11", "big", "D21", "D21"])
     nmax = 7 if thorough else 5
     if kind == "identical":
         n = rng.randint(2, nmax)
@@ -69,9 +69,13 @@ def gen_case(rng, ctx):
     elif kind == "big":
         _, ds = gen.dataset(rng, classes="D8 D3 D2", n=rng.randint(8, 12), mmax=6)
         scls, sch = gen.scheme(rng, "S1 S2 S3 S3 S6 S9 S11")
+    elif kind == "D21":
+        # profile twins under schemes where the 'both unranked' cells matter (T[5] vs B[5] on either side)
+        _, ds = gen.dataset(rng, cls="D21", nmax=nmax, mmax=6)
+        scls, sch = gen.scheme(rng, "S13 S13 S3 S1")
     else:
         _, ds = gen.dataset(rng, cls=kind, nmax=nmax, mmax=6)
-        scls, sch = gen.scheme(rng, "S1 S2 S3 S3 S6 S9 S11")
+        scls, sch = gen.scheme(rng, "S1 S2 S3 S3 S6 S9 S11 S13")
     ds = libx.normalise_raw(ds)
     return {"ds": ds, "scheme": sch, "kind": kind, "scls": scls, "seqseed": rng.randrange(10 ** 6)}
 
